@@ -51,7 +51,8 @@ def is_true(taken):
 
 def sequence_branch_paths(prog):
     """paths through the `node.operator().is_sequence()` branch of tokens_to_operator_tree, from its true edge to the loop latch"""
-    f = prog.fn('tree::tokens_to_operator_tree')
+    from tables import TREE_KEEP
+    f = prog.fn_inlined('tree::tokens_to_operator_tree', keep=TREE_KEEP, module='tree::')
     if f is None:
         raise ValueError('tree::tokens_to_operator_tree not found')
     start = None
